@@ -177,6 +177,24 @@ def cases(tier, seed):
         spec = base_spec(rng, "flat", half)
         out.append(dict(kind="spline", mesh=spec, sym=(half == "left"), ncp=int(rng.integers(1, 7)), fem="tube" if k % 2 else "wingbox",
                         value=float(np.round(rng.uniform(0.2, 2.0), 4)), _cost=3))
+    # histories on one live Geometry problem: design variables moved away from their defaults, back to them exactly, and away again;
+    # after every step the mesh must be the one a fresh problem gives for the same values (and the input mesh at the defaults)
+    n = 12 if tier == "quick" else 240
+    for k in range(n):
+        half = "left" if k % 2 else "full"
+        spec = base_spec(rng, "flat", half)
+        rap = raps[int(rng.integers(len(raps)))]
+        ncp = int(rng.integers(1, 4))
+        sub = [dv for dv in DVS if rng.random() < 0.6] or ["taper"]
+        if k % 3 == 0 and "taper" not in sub:
+            sub.append("taper")
+        steps = []
+        for j in range(5):
+            if j in (1, 4):
+                steps.append({})  # every variable exactly at its default
+            else:
+                steps.append({dv: rand_vals(rng, dv, ncp, spec) for dv in sub if rng.random() < 0.7 or j == 0})
+        out.append(dict(kind="hist", mesh=spec, sym=(half == "left"), rap=rap, ncp=ncp, dvs=sub, steps=steps))
     # shears with varying control points: each section is translated rigidly
     n = 10 if tier == "quick" else 180
     for k in range(n):
@@ -392,7 +410,44 @@ def run_shear_var(c, o):
     o.nontrivial = True
 
 
+def run_hist(c, o):
+    mesh = M.build(c["mesh"])
+    dflt = defaults_for(mesh, c, c["dvs"])
+    s = surface_for(dict(c, rap_key=True), mesh, dflt)
+    live = run_geometry(s)
+    o.tags = ["hist", "sym" if c["sym"] else "full"] + sorted(c["dvs"])
+    scale = np.abs(mesh).max()
+
+    def sets_of(vals):
+        out = {}
+        for dv in c["dvs"]:
+            v = vals.get(dv, dflt[dv])
+            key = dv + "_cp" if dv in ("chord", "twist", "xshear", "yshear", "zshear") else dv
+            out[key] = np.array(v, float) if isinstance(v, list) else v
+        return out
+
+    moved = False
+    for j, vals in enumerate(c["steps"]):
+        st = sets_of(vals)
+        import warnings
+
+        with warnings.catch_warnings():
+            warnings.simplefilter("ignore")
+            for k_, v_ in st.items():
+                live.set_val(k_, v_)
+            live.run_model()
+        got = np.array(live.get_val("mesh"))
+        fresh = np.array(run_geometry(surface_for(dict(c, rap_key=True), mesh, dflt), sets=st).get_val("mesh"))
+        o.close("hist/equals_fresh_problem", got, fresh, rtol=1e-12, scale=scale, what="step %d (%s) on the live problem vs a fresh problem at the same values" % (j, sorted(vals) or "defaults"),
+                tags=o.tags + ["step=%d" % j, "defaults" if not vals else "moved"])
+        if not vals:
+            o.close("hist/defaults_restore_input_mesh", got, mesh, rtol=1e-11, scale=scale, what="all variables back at their defaults (step %d)" % j, tags=o.tags + ["step=%d" % j])
+        else:
+            moved = moved or bool(np.abs(got - mesh).max() > 1e-6)
+    o.nontrivial = moved
+
+
 def run_case(c):
     o = Obs()
-    {"default": run_default, "single": run_single, "combo": run_combo, "spline": run_spline, "shear_var": run_shear_var}[c["kind"]](c, o)
+    {"default": run_default, "single": run_single, "combo": run_combo, "spline": run_spline, "shear_var": run_shear_var, "hist": run_hist}[c["kind"]](c, o)
     return o
